@@ -261,11 +261,9 @@ def gen_da_history(rng):
             lines.append('(c16 h.add %d %s)' % (h, enc(o)))
             shadow.append({**d, **o})
         elif op == 'addh':
-            # Dict.__add__ is tree_update (C15), for which only exact dict / Dict / dictattr instances are mappings: Dict + an instance
-            # of any other dict subclass raises ValueError('node item too short').  Not generated (see docs/notes/C16.md).
-            gs = [g for g in range(len(shadow)) if not (classes[h] in (1, 4) and classes[g] in (3, 4))]
-            if not gs:
-                continue
+            # Dict.__add__ is tree_update (C15), for which only exact dict / Dict / dictattr instances are mappings: before fix C16-A1
+            # Dict + an instance of any other dict subclass raised ValueError('node item too short')
+            gs = list(range(len(shadow)))
             g = rng.choice(gs)
             lines.append('(c16 h.addh %d %d)' % (h, g))
             shadow.append({**d, **shadow[g]})
